@@ -19,10 +19,18 @@ def histHandle (args : List String) : String :=
       | some r => "ok " ++ showF64List r
       | none => "err:Msg"
     | none => "bad-op"
-  | "run" :: bs :: obs :: _ =>
+  | "run" :: bs :: obs :: rest =>
     match parseF64List bs, parseF64List obs with
     | some bs, some obs => match checkAndAdjust Gen.defaultBuckets bs with
-      | some r => "ok " ++ showSnap (((Hist.new r).observeAll f64Add obs).snap)
+      | some r =>
+        let all := ((Hist.new r).observeAll f64Add obs).snap
+        if rest.contains "via=local2" then
+          -- one local histogram, two batches: counts add up; the shared sum is (sum of batch 1) + (sum of batch 2), each folded from 0
+          let k := obs.length / 2
+          let s1 := ((Hist.new r).observeAll f64Add (obs.take k)).snap.sum
+          let s2 := ((Hist.new r).observeAll f64Add (obs.drop k)).snap.sum
+          "ok " ++ showSnap { all with sum := f64Add s1 s2 }
+        else "ok " ++ showSnap all
       | none => "err:Msg"
     | _, _ => "bad-op"
   | ["lin", s, w, c] =>
